@@ -48,7 +48,8 @@ REGISTRY = {
                      (A + "CoerceUnionThm", "Api.no_crashC"), (A + "CoerceUnionThm", "Api.coerce_nc"),
                      (A + "NoCrashThm", "Api.C03_no_crash"), (A + "NoCrashThm", "Api.C03_no_crash_json"), (A + "NoCrashThm", "Api.no_crash"),
                      (A + "NoCrashThm", "Api.jsonX_of_json"), (A + "NoCrashThm", "Api.C03_crash_counterexamples"),
-                     (A + "RecLockThm", "Api.Rec.memo_keyed_by_default_conversion"), (A + "RecMemoThm", "Api.Rec.memo_history_invisible"), (A + "RecMemoThm", "Api.Rec.shared_memo_counterexample")],
+                     (A + "RecLockThm", "Api.Rec.memo_keyed_by_default_conversion"), (A + "RecMemoThm", "Api.Rec.memo_history_invisible"), (A + "RecMemoThm", "Api.Rec.shared_memo_counterexample"),
+                     (A + "RecSeq", "Api.Rec.early_write_counterexample"), (A + "RecLockThm", "Api.Rec.visit_pinned")],
         "partial": "no-crash proved in strict mode on Ty.accU (unions of any shape at any depth) without uniqueItems for every datum of Py.jsonX: JSON containers with string keys whose leaves may be "
                    "any object that is not an instance of the JSON classes (tuples, bytes, ...), and likewise for the tree built with the default coercer (no_crashC); non-string keys, JSON-class subclasses and purity "
                    "(input not modified) are decided by the correspondence / harness only",
@@ -235,7 +236,8 @@ REGISTRY["C19"] = {
 REGISTRY["C20"] = {
     "engine": "engine_rec",
     "theorems": [(A + "RecLockThm", "Api.Rec.lock_is_global"), (A + "RecLockThm", "Api.Rec.memo_keyed_by_default_conversion"), (A + "RecMemoThm", "Api.Rec.memo_per_context"), (A + "Rec", "Api.Rec.race_counterexample"), (A + "Rec", "Api.Rec.seq_ok"), (A + "Rec", "Api.Rec.C20_mutex"),
-                 (A + "Rec", "Api.Rec.lockInv_run"), (A + "Rec", "Api.Rec.C20_locked_racy_schedule_ok")],
+                 (A + "Rec", "Api.Rec.lockInv_run"), (A + "Rec", "Api.Rec.C20_locked_racy_schedule_ok"),
+                 (A + "RecSeq", "Api.Rec.early_write_counterexample"), (A + "RecSeq", "Api.Rec.g1_repaired_exact"), (A + "RecLockThm", "Api.Rec.visit_pinned")],
     "partial": "the interleaving model covers the recursion analysis (the shared recursion cache): a race counterexample for the unsynchronised protocol and "
                "mutual exclusion of the locked protocol for every graph and schedule; DFS correctness of a sequential analysis, the lru_cache fills, RecMethod / "
                "LazyConversion lazy initialisation and pre-emption inside C code are not in the model: they are exercised by schedule replay on real threads "
